@@ -127,6 +127,19 @@ def gen_cases(rng, tier):
       route = "potable"
     rs = sorted(set([rstar, rstar + 0.25, max(0.05, rstar - 0.25), 4.5]))
     cases.append({"kind": "tree", "route": route, "node": node, "forms": [], "tables": [], "rs": [r for r in rs if r > 0], "stationary": True})
+  # a factor / term that is EXACTLY zero at the evaluated separation while its slope is not (lj at sigma, a polynomial
+  # at its root): where a product rule that short-cuts "factor == 0" goes wrong
+  nz = 16 if tier == "quick" else 160
+  for i in range(nz):
+    r0 = rng.choice([0.5, 1.0, 1.5, 2.0, 2.5, 3.0, 0.75, 4.0])
+    node, rv = spec.root_node(rng, r0, spec.ROOT_VARIANTS[i % len(spec.ROOT_VARIANTS)])
+    wrap = (i // 8) % 3
+    if wrap == 1:
+      node = {"k": "sum", "a": [node, spec.gen_form(rng, rmax=1.0)]}
+    elif wrap == 2:
+      node = {"k": "pow", "a": [{"k": "sum", "a": [node, {"k": "form", "name": "constant", "p": [3.0]}]}, {"k": "form", "name": "constant", "p": [2.0]}]}
+    route = "potable" if i % 3 == 0 else "api"
+    cases.append({"kind": "tree", "route": route, "node": node, "forms": [], "tables": [], "rs": sorted(set([r0, r0 + 0.25, r0 * 0.5])), "zero_factor": rv})
   # per-form sweeps (incl. heavy ZBL at large r and r = 0 for regular forms)
   per = 4 if tier == "quick" else 40
   for name in ALLFORMS:
@@ -246,6 +259,9 @@ def run_case(case, ctx):
     ctx.cls("node:" + k)
   o = oracle.ValueOracle(M, refnode, analytic=spec.all_analytic(node))
   ctx.cls("all_analytic" if o.analytic else "has_numeric_component")
+  if case.get("zero_factor"):
+    ctx.cls("evaluated_at_exact_root_of_a_component")
+    ctx.cls("root:" + case["zero_factor"])
   if case.get("stationary"):
     ctx.cls("evaluated_at_exact_stationary_point_of_a_component")
   # documented hasattr rule
